@@ -29,6 +29,11 @@ def extra_cases(rng, quick):
         out.append((dict(base), "@import '%s';" % esc))
         out.append((dict(base), "@import url('%s') screen;" % esc))
         out.append((dict(base, import_sign=None), "@import '%s';" % esc))
+    # function names in other letter cases (round 9, D72): every combination, followed by a rule that must survive
+    for lay in ("", " layer(l)", " Layer(l)", " LAYER( l )", " layer", " LAYER"):
+        for sup in ("", " supports(display:grid)", " Supports(display:grid)", " SUPPORTS((a:b) and (c:d))"):
+            for med in ("", " screen", " (min-width:1px)"):
+                out.append((dict(base), "@import 'm.wxss'%s%s%s; .after{color:red}" % (lay, sup, med)))
     return out
 
 
